@@ -173,7 +173,7 @@ def calls_logger(stmts):
     for s in stmts:
         for n in ast.walk(s):
             if isinstance(n, ast.Call) and isinstance(n.func, ast.Attribute) and \
-                    n.func.attr in ("warning", "info", "error", "debug", "critical", "exception"):
+                    n.func.attr in ("warning", "error", "critical", "exception"):
                 return True
     return False
 
